@@ -85,7 +85,8 @@ TailMenu ==
                          { Run(FALSE, FALSE, <<"r", "q">>, <<"b", "a">>, f) : f \in AllFaults } \cup
                          (IF Lite THEN {} ELSE { Run(TRUE, TRUE, <<"r">>, G3, f) : f \in {x \in AllFaults : x.pkg # "q"} })
       [] Menu = "C07" -> { RunAll, Run(FALSE, FALSE, <<"q">>, G3, NoFault), Run(TRUE, FALSE, <<"r">>, G3, NoFault), Run(TRUE, TRUE, PQR, <<"a">>, NoFault),
-                           Run(FALSE, FALSE, <<"p", "r">>, <<"c", "a">>, NoFault), From("q", RunAll), From("r", Run(TRUE, FALSE, <<"r", "q">>, G3, NoFault)) }
+                           Run(FALSE, FALSE, <<"p", "r">>, <<"c", "a">>, NoFault), From("q", RunAll), From("r", Run(TRUE, FALSE, <<"r", "q">>, G3, NoFault)),
+                           From("q", Run(TRUE, FALSE, <<"q">>, G3, NoFault)) }      \* q alone, started in q's directory: gengo.sum still belongs in the module root
       [] Menu = "C04" -> { Run(TRUE, TRUE, e, G3, NoFault) : e \in Perms3 } \cup { Run(FALSE, FALSE, e, G3, NoFault) : e \in Perms3 } \cup
                          { Run(FALSE, FALSE, <<"r", "p">>, G3, NoFault), Run(TRUE, TRUE, <<"r", "q">>, G3, NoFault), RunAll }
       [] Menu = "C05" -> { Run(all, all, e, G3, NoFault) : all \in BOOLEAN, e \in Selections }
@@ -95,9 +96,13 @@ TailMenu ==
 PlantSeq == << <<"p", "user.go">>, <<"p", "zz_generatedx.go">>, <<"p", "zz_generated">>, <<"p", "zz_generated.old.go">>, <<"p", "notes.txt">>,
                <<"q", "zz_generated.old.go">>, <<"q", "zz_generatedx.go">>,
                (* outputs left behind by an earlier version of generators that still run (kept by ErrIgnore, else rewritten or removed) *)
-               <<"p", "zz_generated.a.go">>, <<"p", "zz_generated.b.go">>, <<"q", "zz_generated.b.go">>, <<"r", "zz_generated.b.go">> >>
+               <<"p", "zz_generated.a.go">>, <<"p", "zz_generated.b.go">>, <<"q", "zz_generated.b.go">>, <<"r", "zz_generated.b.go">>,
+               (* a DIRECTORY whose name starts with the base name and a dot (assets, an unselected sub-package): not an output file *)
+               <<"p", "zz_generated.assets/logo.txt">>,
+               (* an editor's lock file (dangling symbolic link): q's directory cannot be hashed *)
+               <<"q", ".#types.go">> >>
 PlantSets == IF AllPlants THEN {S \in SUBSET (1..Len(PlantSeq)) : Cardinality(S) <= 2} \cup {1..Len(PlantSeq), {4, 9, 10}, {2, 3, 7}, {8, 9, 10, 11}}     \* every pair
-             ELSE { {}, 1..Len(PlantSeq), {4, 6}, {2, 3, 7}, {1, 5}, {8, 9, 10, 11}, {4, 9, 10} }
+             ELSE { {}, 1..Len(PlantSeq), {4, 6}, {2, 3, 7}, {1, 5}, {8, 9, 10, 11}, {4, 9, 10}, {12}, {13} }
 PlantOps(S) == LET idx == SelectSeq([i \in 1..Len(PlantSeq) |-> i], LAMBDA i : i \in S)
                IN [k \in 1..Len(idx) |-> AddUser(PlantSeq[idx[k]][1], PlantSeq[idx[k]][2])]
 
